@@ -32,7 +32,7 @@ var baseWeights = map[string]float64{
 	"new": 8, "newwith": 4, "bnew": 4, "bbatch": 2, "bbatchq": 1, "badd": 2,
 	"rm": 6, "xchg": 10, "assign": 3, "set": 6, "get": 2, "view": 3, "alive": 2,
 	"relset": 5, "relxchg": 3, "relget": 1,
-	"bxchg": 3, "bsetrel": 2, "brm": 1,
+	"bxchg": 3, "bsetrel": 2, "brm": 1, "bbig": 0.05,
 	"qscan": 3, "qopen": 1, "creg": 1, "cunreg": 0.4, "cscan": 2,
 	"reset": 0.3, "dumpload": 0.2, "reg": 0.5, "res": 1, "listen": 0.4, "stats": 1, "locked": 0.5,
 }
@@ -51,6 +51,7 @@ func profile(name string) Profile {
 		mul(3, "new", "rm", "bbatch", "brm", "alive", "stats")
 		mul(3, "reset")
 		mul(8, "dumpload")
+		mul(10, "bbig")
 	case "query": // C03
 		mul(4, "qscan", "qopen")
 		mul(2, "bxchg", "bsetrel", "bbatchq")
@@ -88,6 +89,7 @@ func profile(name string) Profile {
 	case "dump": // C17
 		mul(15, "dumpload")
 		mul(3, "new", "rm", "bbatch", "alive")
+		mul(20, "bbig")
 	case "res": // C20
 		mul(12, "res")
 		mul(3, "reset")
@@ -685,6 +687,13 @@ func (g *G) legalOp(kind string) bool {
 			cmd = "BBATCHQ"
 		}
 		g.emit(cmd, a[0], a[1], a[2], strconv.Itoa(1+g.rng.Intn(6)), tg)
+	case "bbig":
+		// many entities at once: ids beyond the first 64-bit word of every bit set, pool growth
+		if g.x.w.Stats().Entities.Used > 150 {
+			return false
+		}
+		_, a, _ := g.bspec(false)
+		g.emit("BBATCH", a[0], a[1], a[2], strconv.Itoa(40+g.rng.Intn(110)), "-")
 	case "badd":
 		if len(al) == 0 {
 			return false
@@ -1082,6 +1091,10 @@ func (g *G) liveCachedWithToks(f []string) int {
 // every later creation and removal is compared with the model's pool.
 func (g *G) loadIntoNewWorld() {
 	d := len(g.h.dumps) - 1
+	if d > 0 && g.rng.Float64() < 0.4 {
+		// an OLDER snapshot: the dumped world has moved on since (a dump is a value)
+		d = g.rng.Intn(d)
+	}
 	ds := "d" + strconv.Itoa(d)
 	// refused: the dumped world itself still has (or had) entities
 	if g.x.w.Stats().Entities.Total > 0 && g.rng.Float64() < 0.4 {
